@@ -1090,11 +1090,36 @@ Definition dinv (i : nat) (d : dstate) : Prop :=
   one (d_desc d) (d_amount d) /\ one (d_desc d) (d_loc d) /\ one (d_amount d) (d_loc d) /\
   below (d_date d) i /\ below (d_desc d) i /\ below (d_amount d) i /\ below (d_loc d) i.
 
+Lemma dinv_mono i d : dinv i d -> dinv (S i) d.
+Proof.
+  unfold dinv, below. intros (H1 & H2 & H3 & H4 & H5 & H6 & B1 & B2 & B3 & B4).
+  repeat split; try assumption.
+  - destruct (d_date d); [lia|exact I].
+  - destruct (d_desc d); [lia|exact I].
+  - destruct (d_amount d); [lia|exact I].
+  - destruct (d_loc d); [lia|exact I].
+Qed.
+Lemma is_none_true {A} (o : option A) : is_none o = true -> o = None.
+Proof. destruct o; [discriminate|reflexivity]. Qed.
+Lemma one_new_l o i : below o i -> one (Some i) o.
+Proof. intros H. destruct o; simpl in *; [lia|exact I]. Qed.
+Lemma one_new_r o i : below o i -> one o (Some i).
+Proof. intros H. destruct o; simpl in *; [lia|exact I]. Qed.
 Lemma dstep_inv i h d : dinv i d -> dinv (S i) (dstep i h d).
 Proof.
-  destruct d as [[a|] [b|] [c|] [l|]]; unfold dinv, dstep; simpl;
-    destruct (match_header h date_patterns), (match_header h desc_patterns),
-             (match_header h amount_patterns), (match_header h location_patterns); simpl; intuition lia.
+  intros H. pose proof (dinv_mono _ _ H) as Hm.
+  destruct H as (_ & _ & _ & _ & _ & _ & B1 & B2 & B3 & B4).
+  destruct Hm as (H1 & H2 & H3 & H4 & H5 & H6 & C1 & C2 & C3 & C4).
+  unfold dstep.
+  destruct (is_none (d_date d) && match_header h date_patterns)%bool eqn:E1.
+  { unfold dinv; cbn [d_date d_desc d_amount d_loc]. repeat split; auto using one_new_l, one_new_r. simpl; lia. }
+  destruct (is_none (d_desc d) && match_header h desc_patterns)%bool eqn:E2.
+  { unfold dinv; cbn [d_date d_desc d_amount d_loc]. repeat split; auto using one_new_l, one_new_r. simpl; lia. }
+  destruct (is_none (d_amount d) && match_header h amount_patterns)%bool eqn:E3.
+  { unfold dinv; cbn [d_date d_desc d_amount d_loc]. repeat split; auto using one_new_l, one_new_r. simpl; lia. }
+  destruct (is_none (d_loc d) && match_header h location_patterns)%bool eqn:E4.
+  { unfold dinv; cbn [d_date d_desc d_amount d_loc]. repeat split; auto using one_new_l, one_new_r. simpl; lia. }
+  unfold dinv. repeat split; assumption.
 Qed.
 Lemma drun_inv hs : forall i d, dinv i d -> dinv (i + length hs) (drun i hs d).
 Proof.
